@@ -222,3 +222,162 @@ def real_roots(coeffs, a, b, width=F(1, 10 ** 12)):
     Fraction coefficients, highest first) in (a, b]"""
     p = ptrim([fr(c) for c in coeffs])
     return [float((lo + hi) / 2) for lo, hi in isolate(p, F(a), F(b), width)]
+
+
+# --------------------------------------------------------------------------
+# fast integer Sturm machinery (same mathematics as above, big-int arithmetic,
+# dyadic evaluation points) -- used by the monitors, which call it ~1e5 times
+
+from math import gcd
+from functools import reduce
+
+
+def to_int_poly(p):
+    """Fraction coefficients -> integer coefficients of a positive multiple"""
+    p = ptrim(p)
+    den = reduce(lambda a, b: a * b // gcd(a, b), [F(c).denominator for c in p], 1)
+    q = [int(F(c) * den) for c in p]
+    g = reduce(gcd, [abs(c) for c in q]) or 1
+    return [c // g for c in q]
+
+
+def _itrim(p):
+    i = 0
+    while i < len(p) - 1 and p[i] == 0:
+        i += 1
+    return p[i:]
+
+
+def _iprem_pos(a, b):
+    """(|lc b|^d * a) mod b with integer coefficients, d = deg a - deg b + 1"""
+    a, b = _itrim(list(a)), _itrim(list(b))
+    d = len(a) - len(b) + 1
+    if d <= 0:
+        return a
+    m = abs(b[0]) ** d
+    a = [c * m for c in a]
+    while len(a) >= len(b) and a != [0]:
+        q = a[0] // b[0]
+        for i in range(len(b)):
+            a[i] -= q * b[i]
+        a.pop(0)
+        if not a:
+            a = [0]
+    a = _itrim(a) if a else [0]
+    g = reduce(gcd, [abs(c) for c in a]) or 1
+    return [c // g for c in a]
+
+
+def _ideriv(p):
+    n = len(p) - 1
+    return [c * (n - i) for i, c in enumerate(p[:-1])] or [0]
+
+
+def isturm(p):
+    """Sturm chain (integer coefficients) of the integer polynomial p"""
+    p = _itrim(list(p))
+    chain = [p, _ideriv(p)]
+    while len(chain[-1]) > 1:
+        r = _iprem_pos(chain[-2], chain[-1])
+        if r == [0]:
+            break
+        chain.append([-c for c in r])
+    return chain
+
+
+def _isign_at(p, num, k):
+    """sign of p(num / 2^k)"""
+    v = p[0]
+    den = 1
+    for c in p[1:]:
+        den <<= k
+        v = v * num + c * den
+    return (v > 0) - (v < 0)
+
+
+def _ivar(chain, num, k):
+    s = [x for x in (_isign_at(q, num, k) for q in chain) if x]
+    return sum(1 for a, b in zip(s, s[1:]) if a != b)
+
+
+def _idivexact(a, b):
+    """a / b for integer polynomials where b divides a up to a rational constant:
+    returns an integer polynomial proportional to the quotient"""
+    fa = [F(c) for c in a]
+    fb = [F(c) for c in b]
+    q, r = pdivmod(fa, fb)
+    return to_int_poly(q)
+
+
+def int_real_roots(p, width_bits=40):
+    """All distinct real roots of the Fraction-coefficient polynomial p.
+    Returns (list of (lo, hi, multiple?) with lo < root <= hi dyadic Fractions, each
+    interval narrower than 2^-width_bits * max(1, |root|)), chain of the square-free part)."""
+    ip = to_int_poly(p)
+    if len(ip) <= 1:
+        return [], None
+    chain0 = isturm(ip)
+    g = chain0[-1]
+    if len(g) > 1:
+        sf = _idivexact(ip, g)
+        chain = isturm(sf)
+        groots, _ = int_real_roots([F(c) for c in g], width_bits)
+    else:
+        sf, chain, groots = ip, chain0, []
+    lead = abs(sf[0])
+    bound = 2 + max(abs(c) for c in sf[1:]) // lead if len(sf) > 1 else 2
+    kb = max(1, int(bound).bit_length())
+    out = []
+    stack = [(-(1 << kb), 1 << kb, 0, None, None)]
+    while stack:
+        lo, hi, k, vlo, vhi = stack.pop()
+        if vlo is None:
+            vlo = _ivar(chain, lo, k)
+        if vhi is None:
+            vhi = _ivar(chain, hi, k)
+        n = vlo - vhi
+        if n == 0:
+            continue
+        mag_bits = max(abs(lo), abs(hi)).bit_length() - k
+        if n == 1 and (k - max(mag_bits, 0)) >= width_bits and hi - lo <= 2:
+            out.append((F(lo, 1 << k), F(hi, 1 << k)))
+            continue
+        if hi - lo <= 1:
+            lo, hi, k = lo * 2, hi * 2, k + 1
+        mid = (lo + hi) // 2
+        if _isign_at(sf, mid, k) == 0:
+            # the midpoint is a root: fence it with two non-root points close by
+            j = width_bits + 2 + max(mag_bits, 0)
+            while True:
+                a, b = (mid << j) - 1, (mid << j) + 1
+                if _isign_at(sf, a, k + j) and _isign_at(sf, b, k + j):
+                    va, vb = _ivar(chain, a, k + j), _ivar(chain, b, k + j)
+                    if va - vb == 1:
+                        break
+                j += 4
+            out.append((F(a, 1 << (k + j)), F(b, 1 << (k + j))))
+            stack.append((b, hi << j, k + j, vb, vhi))
+            stack.append((lo << j, a, k + j, vlo, va))
+            continue
+        vm = _ivar(chain, mid, k)
+        stack.append((mid, hi, k, vm, vhi))
+        stack.append((lo, mid, k, vlo, vm))
+    out.sort()
+    res = []
+    for lo, hi in out:
+        mult = any(not (ghi < lo or glo > hi) for glo, ghi, _ in groots)
+        res.append((lo, hi, mult))
+    return res, chain
+
+
+def int_count(chain, lo, hi):
+    """distinct real roots in (lo, hi] for Fractions lo < hi (any rationals)"""
+    def var(x):
+        x = F(x)
+        s = []
+        for q in chain:
+            v = peval([F(c) for c in q], x)
+            if v:
+                s.append(v > 0)
+        return sum(1 for a, b in zip(s, s[1:]) if a != b)
+    return var(lo) - var(hi)
